@@ -396,16 +396,37 @@ class FnSplicer:
 
         # Rule 'tokens-to-helper': an exact token sequence (a std call chain Verus cannot take) is replaced by a call of a
         # helper function whose body is that very expression behind an assumed contract: [(tokens, replacement)]
+        captures = {}
         for n_tr, tr_item in enumerate(spec.get('token_rewrites') or []):
             pattern, replacement = tr_item[0], tr_item[1]
             tr_expected = tr_item[2] if len(tr_item) > 2 else 1      # exact number of occurrences the rule is written for
-            want = [t.text for t in lex(pattern) if t.kind not in ('comment', 'doc')]
+            # a pattern token `$name` stands for any identifier; what it matched is substituted for `$name` in the
+            # replacement and in the ghost annotations of this function (so that an annotation follows a renamed local)
+            pattern_l = pattern.replace('$', 'verif_capture_')
+            want = [t.text for t in lex(pattern_l) if t.kind not in ('comment', 'doc')]
+
+            def tr_match(at):
+                caps = {}
+                for off, w in enumerate(want):
+                    tk = toks[at + off]
+                    if w.startswith('verif_capture_'):
+                        if tk.kind != 'ident' or caps.get(w, tk.text) != tk.text:
+                            return None
+                        caps[w] = tk.text
+                    elif tk.text != w:
+                        return None
+                return caps
             hits = []
             i = body_open + 1
             while i < body_close - len(want) + 1:
-                if [t.text for t in toks[i:i + len(want)]] == want and not excluded(i):
+                caps = None if excluded(i) else tr_match(i)
+                if caps is not None:
                     hits.append(i)
+                    for cname, cval in caps.items():
+                        captures['$' + cname[len('verif_capture_'):]] = cval
                 i += 1
+            for cname, cval in captures.items():
+                replacement = replacement.replace(cname, cval)
             if tr_expected == '*':
                 pass        # a rewrite that is applied wherever its shape occurs (possibly nowhere)
             elif len(hits) != tr_expected:
@@ -510,6 +531,8 @@ class FnSplicer:
         # ghost annotations before a statement identified by its leading tokens: [(token texts, ghost code)]
         for n_anchor, gb_item in enumerate(spec.get('ghost_before') or []):
             anchor, code = gb_item[0], gb_item[1]
+            for cname, cval in captures.items():
+                code = code.replace(cname, cval)
             gb_expected = gb_item[2] if len(gb_item) > 2 else 1      # exact number of occurrences the annotation is written for
             want = anchor.split()
             hits = []
@@ -991,6 +1014,12 @@ class FnSplicer:
                         k += 1
                     elif toks[k].kind == 'ident' and toks[k].text == 'let':
                         has_let = True
+                        # skip the pattern (it may contain braces) up to the `=`
+                        k += 1
+                        while not (toks[k].kind == 'punct' and toks[k].text == '='):
+                            if toks[k].text in OPEN:
+                                k = match_close(toks, k)
+                            k += 1
                     elif toks[k].text == '|' and toks[k + 1].text == '|' and toks[k + 1].start == toks[k].end:
                         ok = False
                     k += 1
